@@ -751,6 +751,78 @@ def run_deg(c):
     return ck.result()
 
 
+# ------------------------------------------------------------------------------------------- complex arguments of contains / is_tangent
+COMPLEX_FACTORS = [[1, 1], [0, 1], [1, -1], [2, 1], [-1, 2]]
+
+
+@st.composite
+def cplx_case(draw, tier="quick"):
+    d = draw(st.sampled_from([2, 2, 3]))
+    return {"d": d, "sig": draw(st.sampled_from(SIGS[d][:1] + SIGS[d][2:] if d == 2 else SIGS[d][:2])), "n": draw(Z.params(9)), "i": draw(st.integers(0, 5)), "p": draw(C.hpoint(d, 5)),
+            "f": draw(st.integers(0, len(COMPLEX_FACTORS) - 1)), "what": draw(st.sampled_from(["off_point_times_factor", "on_point_times_factor", "circular_points", "hyperplane_times_factor"])),
+            "abc": [draw(st.integers(-4, 4)) for _ in range(5)]}
+
+
+def run_cplx(c):
+    """contains / is_tangent for complex arguments: x^T S x is a complex number and must vanish, not only its real part.  A real point off the
+    quadric given by the representative (1 + i) x has a purely imaginary quadratic form; the circular points I, J lie on circles only - for a conic
+    with equal x^2 and y^2 coefficients and an xy term their quadratic form is -+2i times that term"""
+    d, what = c["d"], c["what"]
+    n = d + 1
+    fr_, fi_ = COMPLEX_FACTORS[c["f"] % len(COMPLEX_FACTORS)]
+    fac = complex(fr_, fi_)
+    ck = Checker()
+    if what == "circular_points":
+        a, b, cc, dd, e = [float(x) for x in c["abc"]]
+        if b == 0 or a == 0:
+            raise Skip("a circle or degenerate")
+        A = np.array([[a, b, cc], [b, a, dd], [cc, dd, e]])
+        if abs(np.linalg.det(A)) < 0.5:
+            raise Skip("degenerate")
+        Q = Conic(A)
+        for name, pt in (("I", np.array([-1j, 1, 0])), ("J", np.array([1j, 1, 0]))):
+            for k in (1.0, fac):
+                r, f = call(f"contains:circular-point-{name}:conic-with-xy-term", Q.contains, Point(pt * k))
+                if f:
+                    ck.add(f)
+                else:
+                    ck.check(not bool(r), f"contains:circular-point-{name}-is-not-on-a-conic-with-an-xy-term", (A.tolist(), complex(k)))
+        return ck.result()
+    S, adjN = quadric_matrix(c["n"], c["sig"], n)
+    Sn = pow2_normalise(np.array([[float(v) for v in r] for r in S]))
+    Q = (Conic if d == 2 else Quadric)(Sn)
+    if what == "hyperplane_times_factor":
+        h = fr(c["p"])
+        Sinv_form = qform([[float(x) for x in r] for r in np.linalg.inv(np.array([[float(v) for v in r] for r in S]))], [float(x) for x in h], [float(x) for x in h])
+        if abs(Sinv_form) < 1e-6:
+            raise Skip("tangent hyperplane")
+        hv = np_f(h)
+        H = (Line if d == 2 else Plane)(hv * fac)
+        r, f = call("is_tangent:non-tangent-hyperplane-times-complex-factor", Q.is_tangent, H)
+        if f:
+            return [f]
+        ck.check(not bool(r), "is_tangent:non-tangent-hyperplane-times-complex-factor", (hv.tolist(), fac))
+        return ck.result()
+    if what == "on_point_times_factor":
+        if tuple(c["sig"]) not in PTS:
+            raise Skip("no real points")
+        y = fr(PTS[tuple(c["sig"])][c["i"] % 6])
+        x = primitive([sum(adjN[i][j] * y[j] for j in range(n)) for i in range(n)])
+        xv = np_f(x) / float(max(abs(v) for v in x))
+        want = True
+    else:
+        x = fr(c["p"])
+        if qform(S, x, x) == 0:
+            raise Skip("point on the quadric")
+        xv = np_f(x)
+        want = False
+    r, f = call(f"contains:{what}", Q.contains, Point(xv * fac))
+    if f:
+        return [f]
+    ck.check(bool(r) == want, f"contains:{what}:expected-{want}", (xv.tolist(), fac))
+    return ck.result()
+
+
 # ------------------------------------------------------------------------------------------- small circles / spheres away from the origin
 UNIT3 = [(3, 4, 0, 5), (0, 3, 4, 5), (4, 0, 3, 5), (1, 2, 2, 3), (2, 3, 6, 7), (-2, 6, 3, 7), (1, 0, 0, 1), (0, 0, 1, 1), (2, -1, 2, 3), (0, -1, 0, 1), (-6, 2, 3, 7)]
 UNIT2 = [(3, 4, 5), (4, -3, 5), (1, 0, 1), (0, 1, 1), (5, 12, 13), (-12, 5, 13), (8, 15, 17), (-4, -3, 5), (7, 24, 25)]
@@ -821,6 +893,9 @@ LAWS = [
     Law("intersect_line", lambda tier: isect_case(tier), run_isect, isect_nontrivial, lambda c: [f"d{c['d']}", c["ltype"], "sig" + "".join("+" if x > 0 else "-" for x in c["sig"])] + ([c["coll"]] if c["coll"] else []) + (["collection-with-axis-parallel-line"] if c["coll"] == "lines" and c.get("other", "").startswith("axis") else []),
         {"quick": 2500, "thorough": 50000}, "quadric.intersect(line) = roots of the exact restriction; every point on both; secant/tangent/complex/origin/infinity", shard=300,
         mandatory=("tangent", "secant", "lines", "quadrics", "collection-with-axis-parallel-line")),
+    Law("complex_arguments", lambda tier: cplx_case(tier), run_cplx, lambda c: True, lambda c: [c["what"], f"d{c['d']}"], {"quick": 1500, "thorough": 20000},
+        "contains / is_tangent with complex arguments: real points off / on the quadric and non-tangent hyperplanes given by representatives with a complex factor (1+i, i, 1-i, 2+i), the circular points against conics with an xy term", shard=300,
+        mandatory=("off_point_times_factor", "circular_points", "hyperplane_times_factor")),
     Law("small_round_quadrics_off_centre", lambda tier: small_case(tier), run_small, lambda c: max(abs(x) for x in c["c"]) >= 90, lambda c: [f"d{c['d']}", f"r={c['r']}", "coll" if c["coll"] else "single"] + (["chord<3e-3-of-the-distance"] if 2 * c["r"] < 3e-3 * math.hypot(*c["c"]) * (60 if c["r"] == 0.0625 else 100) / 300 else []),
         {"quick": 1500, "thorough": 25000}, "circles / spheres of radius 1/16 ... 1 with centre coordinates up to 100, cut by a line at distance t r from the centre: two distinct points, r sqrt(1 - t^2) to either side of the foot", shard=300,
         mandatory=("chord<3e-3-of-the-distance",)),
